@@ -34,7 +34,8 @@ def bounds(tier):
     return {'raw_string_length': '0..3 quick / 0..4 thorough (relpath pairs: |a| <= 2,|b| <= 2 quick; '
                                  '<= 3, <= 2 thorough)',
             'flavours': ['posix', 'windows'], 'roots': ['srcdir', 'builddir', 'prefix', 'libdir'],
-            'token_paths': '2 lists quick / 3 lists thorough, depth <= 2 over 3 names'}
+            'token_paths': '3 lists of depth <= 2 over 2 names (quick) / 3 names (thorough); one name '
+                           'sorts differently as a string than as a component list'}
 
 
 def obligations(tier, kf):
@@ -73,13 +74,16 @@ def obligations(tier, kf):
             obs.append(ob.twin())
             for mu in MUTANTS['r_relpath']:
                 obs.append(ob.mutant(mu))
-    k = 2 if tier == 'quick' else 3
+    nn = 2 if tier == 'quick' else 3
     for fn in ('c_commonprefix', 't_uniquetrees'):
-        ob = Ob(fn, {'M': 2, 'K': k}, 900, desc='%s, %d token paths of depth <= 2' % (fn, k))
+        ob = Ob(fn, {'M': 2, 'K': 3, 'NN': nn}, 900,
+                desc='%s, 3 token paths of depth <= 2 over %d names' % (fn, nn))
         obs.append(ob)
         obs.append(ob.twin())
-    obs.append(Ob('c_commonprefix', {'M': 2, 'K': 2, 'mutant': 'commonprefix_minmax'}, 300,
+    obs.append(Ob('c_commonprefix', {'M': 2, 'K': 3, 'NN': 2, 'mutant': 'commonprefix_minmax'}, 300,
                   role='mutant'))
+    obs.append(Ob('t_uniquetrees', {'M': 2, 'K': 3, 'NN': 2, 'mutant': 'uniquetrees_string_sort'},
+                  300, role='mutant'))
     return obs
 
 
